@@ -96,11 +96,18 @@ func (d *Dispatcher) updateDispatchedAmount(
 	da := d.GetDispatchedAmount(ctx, sourceID, destID, denom)
 	amount := da.AmountDispatched
 
+	var err error
 	if newAmount.Incoming.IsPositive() {
-		amount.Incoming = amount.Incoming.Add(newAmount.Incoming)
+		amount.Incoming, err = amount.Incoming.SafeAdd(newAmount.Incoming)
+		if err != nil {
+			return errorsmod.Wrap(err, "incoming dispatched amount overflow")
+		}
 	}
 	if newAmount.Outgoing.IsPositive() {
-		amount.Outgoing = amount.Outgoing.Add(newAmount.Outgoing)
+		amount.Outgoing, err = amount.Outgoing.SafeAdd(newAmount.Outgoing)
+		if err != nil {
+			return errorsmod.Wrap(err, "outgoing dispatched amount overflow")
+		}
 	}
 
 	return d.SetDispatchedAmount(ctx, sourceID, destID, denom, amount)
